@@ -11,7 +11,7 @@ RULE = ("Hypothesis draws a routine (fast_matvec, dmrg_hadamard, amen_mv, amen_m
         "of order 1-6 with modes 1-6 (dense operator <= ~8000 entries), ranks 1-4, two spectra (Gaussian cores = exact "
         "rank; sum of rank-one terms weighted rho^k, rho in {0.5,0.1,0.01} = decaying, so truncation is active at loose "
         "eps), eps log-uniform in [1e-12,1e-1], the seed of the library's internal randomness, an optional user initial "
-        "guess of arbitrary ranks 1-5, float64 and (DMRG routines) complex128. Oracle: result kind and shape, "
+        "guess of arbitrary ranks 1-5, float64 and (DMRG routines) complex128, float32 and complex64 (single precision with eps in [1e-5,1e-1]). Oracle: result kind and shape, "
         "||dense(y)-ref|| <= 3 eps ||ref|| + roundoff with ref the dense product of the checker's contractions. "
         "Non-trivial: truncation active (decaying spectrum and eps>=1e-6) or user initial guess or order<=2 or a "
         "singleton mode. Distinct = structural signature (seeds removed).")
@@ -44,13 +44,18 @@ def decaying_cores(N, M, r, rho, dt, g):
 def strategy_case(draw):
     routine = draw(st.sampled_from(["fast_matvec", "dmrg_hadamard", "amen_mv", "amen_mm"]))
     d = draw(st.sampled_from([1, 2, 2, 3, 3, 4, 5, 6]))
-    dt = draw(st.sampled_from(["f64", "f64", "c128"])) if routine in ("fast_matvec", "dmrg_hadamard") else "f64"
+    dt = draw(st.sampled_from(["f64", "f64", "c128", "f32", "c64"])) if routine in ("fast_matvec", "dmrg_hadamard") else "f64"
     lim = 90 if routine != "amen_mm" else 40
     sizes = (1, 2, 3, 4, 5, 6)
     case = {"routine": routine, "dt": dt, "lib_seed": draw(gen.SEED), "seed": draw(gen.SEED),
             "eps": 10 ** draw(st.floats(-12, -1)),
             "spectrum": draw(st.sampled_from(["randn", "decay", "decay"])),
             "scale_exp": draw(st.sampled_from([0, 0, 0, -6, -3, 3, 6, -20, 20]))}
+    if dt in ("f32", "c64"):
+        # single precision: eps stays above the working precision (below it no multiple of eps can be promised) and the
+        # operand scaling inside the float32 range
+        case["eps"] = 10 ** draw(st.floats(-5, -1))
+        case["scale_exp"] = draw(st.sampled_from([0, 0, -3, 3, -6, 6]))
     if case["spectrum"] == "decay":
         case["rho"] = draw(st.sampled_from([0.5, 0.1, 0.01]))
         case["r"] = draw(st.integers(2, 4))
